@@ -5,8 +5,11 @@ use resolvo::utils::{Pool, VersionSet};
 use resolvo::{NameId, SolvableId, StringId, VersionSetId, VersionSetUnionId};
 use std::panic::{catch_unwind, AssertUnwindSafe};
 
-#[derive(Clone, PartialEq, Eq, Hash)]
+/// A version set whose `Hash` is legal but much coarser than its `Eq` (four buckets): tables keyed by version sets
+/// must resolve collisions by equality.
+#[derive(Clone, PartialEq, Eq)]
 pub struct Vs(pub u32);
+impl std::hash::Hash for Vs { fn hash<H: std::hash::Hasher>(&self, state: &mut H) { state.write_u32(self.0 % 4); } }
 impl VersionSet for Vs { type V = u32; }
 
 pub fn gen_case(rng: &mut Rng) -> Vec<String> {
